@@ -635,7 +635,7 @@ fn run_case(rep: &mut Report, drv: &mut Driver, case: &Case) {
     // COMMENTS only: without its comments each emitted file is, token for token, the file emitted for the same schema
     // with every description and every @deprecated removed
     if delims::has_comments(&tsdoc) {
-        let plain_sdl = nvh::render::tsdoc_text(&delims::plain_doc(&tsdoc));
+        let plain_sdl = delims::plain_sdl(&case.sdl).unwrap_or_else(|e| format!("# not parsed: {e}"));
         match with_schema(&[plain_sdl.clone()], |resolved, _| (print_schema_types(resolved, &config), print_resolver_types(resolved, &config))) {
             Err(e) => rep.fail("K", "comments-only:plain-schema-not-accepted", &format!("the schema without descriptions is not accepted: {e:?}\n{plain_sdl}"), case.to_json()),
             Ok((plain_schema, plain_resolvers)) => {
@@ -650,7 +650,6 @@ fn run_case(rep: &mut Report, drv: &mut Driver, case: &Case) {
                             // a file that cannot be tokenised is reported by the well-formedness check
                             if let Some(wt) = delims::code_tokens(w) {
                                 if wt != pt {
-                                    if let Ok(d) = std::env::var("C10_DEBUG_DIR") { let _ = std::fs::write(format!("{d}/with-{file}.ts"), w); let _ = std::fs::write(format!("{d}/plain-{file}.ts"), p); let _ = std::fs::write(format!("{d}/plain.graphql"), &plain_sdl); }
                                     let class = if hostile { "jsdoc-close" } else { "description-changes-code" };
                                     rep.fail(
                                         "O",
